@@ -39,11 +39,41 @@ variable {K : Type} [Add K] [Sub K] [Mul K] [Div K] [Neg K] [Zero K] [IntCast K]
 
 def zero3 : V3 K := ⟨0, 0, 0⟩
 
+/-- entry `(j, k)` of a matrix / the matrix with given entries (index form used by the source tie). -/
+@[inline] def ent (m : M3 K) (j k : Nat) : K := (m.row j).get k
+@[inline] def matOf (f : Nat → Nat → K) : M3 K :=
+  ⟨⟨f 0 0, f 0 1, f 0 2⟩, ⟨f 1 0, f 1 1, f 1 2⟩, ⟨f 2 0, f 2 1, f 2 2⟩⟩
+
+/-- the starting value of `r1` in `match_pq` (`cdef double r1 = 1e16`). -/
+def bigR1 : K := ((10000000000000000 : Nat) : K)
+
 /-! ### displacement, slip vector, differential displacement -/
 
 /-- `displacement(system_0, system_1, box_reference)`: the caller passes the cell selected by
     `box_reference` (`'final'`: system_1's, `'initial'`: system_0's). -/
 def displacement (c : Cell K) (pos0 pos1 : Nat → V3 K) (i : Nat) : V3 K := c.dv (pos0 i) (pos1 i)
+
+/-- the `box_reference` argument of `displacement`: `'final'`, `'initial'`, `None`, anything else. -/
+inductive BoxRef where
+  | final | initial | none | other
+deriving DecidableEq, Repr
+
+/-- `neighbors`-block / argument refusals shared by the entry points. -/
+inductive NbrErr where
+  | assert | value
+deriving DecidableEq, Repr
+
+/-- `displacement(system_0, system_1, box_reference)` as a whole (`n0`, `n1`: the atom counts): different counts and
+    an unknown `box_reference` are `ValueError`s (in this order), `'final'` takes system_1's box and pbc, `'initial'`
+    system_0's, `None` the plain difference. -/
+def displacementCall (n0 n1 : Nat) (c0 c1 : Cell K) (ref : BoxRef) (pos0 pos1 : Nat → V3 K) :
+    Except NbrErr (Nat → V3 K) :=
+  if n0 ≠ n1 then .error .value else
+  match ref with
+  | .final => .ok (displacement c1 pos0 pos1)
+  | .initial => .ok (displacement c0 pos0 pos1)
+  | .none => .ok (fun i => pos1 i - pos0 i)
+  | .other => .error .value
 
 /-- one pass of the accumulation `slipv[i] -= d_1[n] - d_0[n]`. -/
 @[inline] def slipStep (c : Cell K) (pos0 pos1 : Nat → V3 K) (i : Nat) (acc : V3 K) (j : Nat) : V3 K :=
@@ -463,10 +493,6 @@ end sobj
   `slip_vector`, `Strain.__init__`, `Strain.build_p_vectors`, `nye_tensor` and `differential_displacement` share
   one block: an explicit `neighbors` list (together with `cutoff`: `AssertionError`), else the list built for the
   given `cutoff`, else the `neighbors` attribute of the system, else `ValueError`. -/
-
-inductive NbrErr where
-  | assert | value
-deriving DecidableEq, Repr
 
 /-- `cutoff` carries the list the builder returns for the given cutoff (building it is property C03);
     `attr` the `neighbors` attribute of the system when it has one. -/
